@@ -126,6 +126,16 @@ def check(case):
                     return self.input_dataset[item]
                 return super().__getitem__(item)
         P = UserStage(P)
+    if case.get('warm') and m.cap_str == 'req' and m.keys and not m.taint:
+        # the pipeline was USED before it is profiled (a lookup, keys, a pass): what it memoised is its own business
+        try:
+            P[m.keys[0]]
+            P.keys()
+            observe.take(lambda: P, 3)
+        except observe.PASS_THROUGH:
+            raise
+        except BaseException as e:
+            e.__traceback__ = None
     for spy in getattr(env, 'spies', {}).values():
         spy.calls = 0  # eager stages (sort, eager filter) iterate at construction time, before the wrapper exists
     before = snapshot(P)
@@ -194,6 +204,22 @@ def check(case):
         if not m.unordered and not observe.same_list(got, want[:len(got)]):
             raise Violation(f'wrapped-iter-values|{tag}', f'{desc}\ngot {got}\nexpected prefix of {want}')
         fetched, failed_root = len(got), int(exc is not None)
+    elif case['mode'] == 'key':
+        if not (m.cap_str == 'req' and m.keys and not m.taint and len(set(m.keys)) == len(m.keys)):
+            return False
+        for kk, want_v in zip(m.keys, m.vals):
+            try:
+                v = W[kk]
+            except observe.PASS_THROUGH:
+                raise
+            except BaseException as e:
+                failed_root += 1
+                if not (isinstance(want_v, progs.Raise) and observe.exc_matches(e, want_v)):
+                    raise Violation(f'wrapped-key-raised|{tag}', f'{desc}\nW[{kk!r}] raised {observe.describe_exc(e)}')
+                continue
+            fetched += 1
+            if isinstance(want_v, progs.Raise) or not observe.same(v, want_v):
+                raise Violation(f'wrapped-key-value|{tag}', f'{desc}\nW[{kk!r}] == {v!r}, expected {want_v!r}')
     else:  # index
         if not (m.indexable and m.sized) or m.int_taint:
             return False
@@ -284,6 +310,19 @@ def st_case(draw):
                              'shard', 'tile'}
     if draw(st.integers(0, 3)) == 0:
         allowed = allowed | {'reshuffle', 'sort', 'shuffle_once', 'shard', 'tile', 'filter_eager'}
+    if draw(st.integers(0, 7)) == 0:
+        # a keyed n-ary stage that was used BY KEY before it is profiled, then fetched by key through the profiler
+        ctx = gen.Ctx()
+        a = draw(gen.st_source(ctx, kind='dict', min_n=1))
+        b = draw(gen.st_source(ctx, kind='dict', min_n=1))
+        if set(a['keys']) & set(b['keys']):
+            b = dict(b, keys=[k + '_b' for k in b['keys']])
+        if draw(st.booleans()):
+            a = {'op': 'map', 'fn': draw(st.integers(0, 3)), 'in': a}
+        node = {'op': 'concat', 'how': draw(st.sampled_from(['method', 'function'])), 'ins': [a, b]}
+        if draw(st.booleans()):
+            node = {'op': 'map', 'fn': draw(st.integers(0, 3)), 'in': node}
+        return {'ast': node, 'mode': draw(st.sampled_from(['key', 'key', 'full', 'index'])), 'warm': True}
     if draw(st.integers(0, 5)) == 0:
         # a failing stage below a stage that is told what to catch (the profiler works on a COPY of the pipeline:
         # the copy has to catch what the original catches)
@@ -333,7 +372,7 @@ def st_case(draw):
             node = node['in']
         return {'ast': node, 'mode': draw(st.sampled_from(['full', 'partial'])), 'k': draw(st.integers(0, 3))}
     node = draw(gen.st_program(gen.Ctx(), allowed, max_stages=5))
-    mode = draw(st.sampled_from(['full', 'full', 'partial', 'index', 'dual']))
+    mode = draw(st.sampled_from(['full', 'full', 'partial', 'index', 'dual', 'key']))
     if mode == 'dual':
         mm = ev(node)
         if mm.has_raise or mm.unordered or mm.iter_taint or not mm.sized or any(
@@ -342,6 +381,8 @@ def st_case(draw):
     case = {'ast': node, 'mode': mode}
     if draw(st.integers(0, 5)) == 0:
         case['user_stage'] = True
+    if draw(st.integers(0, 2)) == 0:
+        case['warm'] = True
     if mode == 'partial':
         case['k'] = draw(st.integers(0, ev(node).n + 1))
     return case
